@@ -6,9 +6,10 @@ property talks about.
 
 Everything works on `List UInt8`.  Scanners produce a list of *segments* that partition the input;
 the text the Go code returns is a rendering of the segments (placeholder numbering for the masker,
-`' '`/nothing for comments).  Quirks of the Go code are kept: backslash-before-quote is an escape in
-every quoted form, comments do not nest, only `\n` ends a `--` comment, and a block comment that is
-followed by exactly one more byte swallows that byte.
+`' '`/nothing for comments).  Quirks of the Go code are kept (tree at 64dff5c): the masker looks at the PREVIOUS BYTE to decide
+whether `$` / `e'` can open a literal, and ends a `--` comment only at `\n`; the comment stripper does
+not nest, ends `--` only at `\n`, and a block comment that is followed by exactly one more byte
+swallows that byte; unmasking is ONE pass over the text (strings.NewReplacer).
 Core-only, executable.
 -/
 namespace Arc.C15
@@ -68,26 +69,9 @@ def spanP (p : UInt8 → Bool) : Bytes → Bytes × Bytes
 
 /-! ## quoted bodies -/
 
-/-- Masker (`scanQuoted` and the inline loop of `MaskStringLiterals`): the input starts right after
-the opening quote; `pb` = "the previous byte is a backslash". Returns (body incl. closing quote, rest).
-A quote is skipped when doubled, **or when preceded by a backslash** (any quoted form). -/
-def mBody (q : UInt8) : Bool → Bytes → Bytes × Bytes
-  | _, [] => ([], [])
-  | _, [c] => ([c], [])
-  | pb, c :: c2 :: t2 =>
-    if c = q then
-      if c2 = q then
-        let r := mBody q false t2
-        (c :: c2 :: r.1, r.2)
-      else if pb then
-        let r := mBody q false (c2 :: t2)
-        (c :: r.1, r.2)
-      else ([c], c2 :: t2)
-    else
-      let r := mBody q (c = BSLASH) (c2 :: t2)
-      (c :: r.1, r.2)
-
-/-- SqlLex: `'…'` and `"…"`: only the doubled quote is an escape. -/
+/-- `'…'` and `"…"` (SqlLex, and since 8f4fe38 the inline loop of `MaskStringLiterals`): only the
+doubled quote is an escape. Input starts right after the opening quote; returns (body incl. closing
+quote, rest). -/
 def lBody (q : UInt8) : Bytes → Bytes × Bytes
   | [] => ([], [])
   | [c] => ([c], [])
@@ -101,7 +85,8 @@ def lBody (q : UInt8) : Bytes → Bytes × Bytes
       let r := lBody q (c2 :: t2)
       (c :: r.1, r.2)
 
-/-- SqlLex: body of `E'…'`: a backslash consumes the next byte, `''` is a quote. -/
+/-- body of `E'…'` (SqlLex, and `scanQuoted` since 8f4fe38): a backslash consumes the next byte, `''`
+is a quote. -/
 def lEBody : Bytes → Bytes × Bytes
   | [] => ([], [])
   | [c] => ([c], [])
@@ -150,31 +135,54 @@ def dollarTok (start cont : UInt8 → Bool) (after : Bytes) : Option (Bytes × B
     | some (b, rest) => some (DOLLAR :: tag ++ DOLLAR :: b, rest)
     | none => some (DOLLAR :: after, [])
 
-/-- `dollarQuoteTag`: ASCII letters/underscore, digits not first. -/
-def mTagStart (c : UInt8) : Bool := isAlpha c || c == 95
-def mTagCont (c : UInt8) : Bool := isAlpha c || c == 95 || isDigit c
-/-- Postgres/DuckDB `dolq_start`/`dolq_cont`: bytes ≥ 0x80 are letters too. -/
+/-- Postgres/DuckDB `dolq_start`/`dolq_cont` and (since abf5a7e) `dollarQuoteTag`: letters, `_`, bytes
+≥ 0x80; digits not first. -/
 def lTagStart (c : UInt8) : Bool := isAlpha c || c == 95 || isHigh c
 def lTagCont (c : UInt8) : Bool := isAlpha c || c == 95 || isHigh c || isDigit c
 
 /-! ## the masker -/
 
+/-- After `/*` at depth `d ≥ 1`: block comments NEST (SqlLex, and the masker since 64dff5c).
+Returns (consumed, rest). -/
+def lBlock : Nat → Bytes → Bytes × Bytes
+  | _, [] => ([], [])
+  | _, [c] => ([c], [])
+  | d, c :: c2 :: t2 =>
+    if c = STAR ∧ c2 = SLASH then
+      (if d ≤ 1 then ([c, c2], t2)
+       else
+        let r := lBlock (d - 1) t2
+        (c :: c2 :: r.1, r.2))
+    else if c = SLASH ∧ c2 = STAR then
+      let r := lBlock (d + 1) t2
+      (c :: c2 :: r.1, r.2)
+    else
+      let r := lBlock d (c2 :: t2)
+      (c :: r.1, r.2)
+
 /-- One iteration of the main loop of `MaskStringLiterals` at byte `c` (previous byte `prev`, 0 at
-the start), remaining input `t`: the segment produced and the rest. -/
+the start), remaining input `t`: the segment produced and the rest. Order of the tests as in the
+source: dollar quote, E-string, `--` comment (to `\n` only), nested block comment, quote. -/
 def mTok (prev c : UInt8) (t : Bytes) : Seg × Bytes :=
   if c = DOLLAR then
     if isIdentByte prev then (.raw c, t)
-    else match dollarTok mTagStart mTagCont t with
+    else match dollarTok lTagStart lTagCont t with
       | some (tok, rest) => (.str tok, rest)
       | none => (.raw c, t)
   else if isE c && t.head? = some QUOTE && !isIdentByte prev then
-    let r := mBody QUOTE false t.tail
+    let r := lEBody t.tail
     (.str (c :: QUOTE :: r.1), r.2)
+  else if c = DASH ∧ t.head? = some DASH then
+    let r := spanP (fun b => b != NL) (c :: t)
+    (.lcom r.1, r.2)
+  else if c = SLASH ∧ t.head? = some STAR then
+    let r := lBlock 1 t.tail
+    (.bcom (c :: STAR :: r.1), r.2)
   else if c = QUOTE then
-    let r := mBody QUOTE false t
+    let r := lBody QUOTE t
     (.str (c :: r.1), r.2)
   else if c = DQUOTE then
-    let r := mBody DQUOTE false t
+    let r := lBody DQUOTE t
     (.ident (c :: r.1), r.2)
   else (.raw c, t)
 
@@ -239,28 +247,24 @@ def mask (s : Bytes) (hasQuotes : Bool) : Bytes × List Mask :=
 
 /-! ### unmask -/
 
-/-- `strings.Replace(s, old, new, 1)` for non-empty `old`. -/
-def replaceFirst (old new : Bytes) : Bytes → Bytes
-  | [] => []
-  | c :: t =>
-    if old.isPrefixOf (c :: t) then new ++ (c :: t).drop old.length
-    else c :: replaceFirst old new t
+/-- first mask (argument order = priority of `strings.NewReplacer`) whose placeholder is a prefix of `t` -/
+def findMask (t : Bytes) : List Mask → Option Mask
+  | [] => none
+  | m :: ms => if !m.ph.isEmpty && m.ph.isPrefixOf t then some m else findMask t ms
 
-/-- `strings.ReplaceAll(s, old, new)` for non-empty `old` (non-overlapping, left to right). -/
-def replaceAllF (old new : Bytes) : Nat → Bytes → Bytes
-  | 0, s => s
+/-- one pass of `strings.NewReplacer(ph₀, orig₀, ph₁, orig₁, …).Replace`: at each position the first
+matching placeholder (in mask order) is replaced and skipped, otherwise the byte is copied; replaced
+text is never rescanned. -/
+def unmaskF (masks : List Mask) : Nat → Bytes → Bytes
+  | 0, t => t
   | _, [] => []
   | f + 1, c :: t =>
-    if old.isPrefixOf (c :: t) then new ++ replaceAllF old new f ((c :: t).drop old.length)
-    else c :: replaceAllF old new f t
+    match findMask (c :: t) masks with
+    | some m => m.orig ++ unmaskF masks f ((c :: t).drop m.ph.length)
+    | none => c :: unmaskF masks f t
 
-def replaceAll (old new s : Bytes) : Bytes := replaceAllF old new (s.length + 1) s
-
-def unmaskStep (r : Bytes) (m : Mask) : Bytes :=
-  if m.isIdent then replaceAll m.ph m.orig r else replaceFirst m.ph m.orig r
-
-/-- `UnmaskStringLiterals`. -/
-def unmask (t : Bytes) (masks : List Mask) : Bytes := masks.foldl unmaskStep t
+/-- `UnmaskStringLiterals` (942e7b2: single pass). -/
+def unmask (t : Bytes) (masks : List Mask) : Bytes := unmaskF masks (t.length + 1) t
 
 /-! ## comment stripping (`stripSQLComments`) -/
 
@@ -328,23 +332,6 @@ def normalize (s : Bytes) : Bytes × List Mask :=
 def isIdStart (c : UInt8) : Bool := isAlpha c || c == 95 || isHigh c
 def isIdCont (c : UInt8) : Bool := isAlpha c || c == 95 || isHigh c || isDigit c || c == 36
 
-/-- After `/*` at depth `d ≥ 1`: block comments NEST. Returns (consumed, rest). -/
-def lBlock : Nat → Bytes → Bytes × Bytes
-  | _, [] => ([], [])
-  | _, [c] => ([c], [])
-  | d, c :: c2 :: t2 =>
-    if c = STAR ∧ c2 = SLASH then
-      (if d ≤ 1 then ([c, c2], t2)
-       else
-        let r := lBlock (d - 1) t2
-        (c :: c2 :: r.1, r.2))
-    else if c = SLASH ∧ c2 = STAR then
-      let r := lBlock (d + 1) t2
-      (c :: c2 :: r.1, r.2)
-    else
-      let r := lBlock d (c2 :: t2)
-      (c :: r.1, r.2)
-
 /-- One token at byte `c`; `inId` = the previous byte belongs to an unquoted identifier that may
 continue. Returns (segment, rest, inId afterwards). -/
 def lTok (inId : Bool) (c : UInt8) (t : Bytes) : Seg × Bytes × Bool :=
@@ -397,26 +384,16 @@ def demoteLit : Seg → List Seg
 Each function returns `0` when the input is inside the class, otherwise the code of the first
 excluded construct (the harness prints the same codes). -/
 
-/-- no backslash immediately before the quote byte `q`. -/
-def noBsQ (q : UInt8) (o : Bytes) : Bool := !hasPair BSLASH q o
-/-- no quote or dollar byte (what could make the comment-unaware masker open a literal). -/
-def commentClean (o : Bytes) : Bool := o.all (fun b => b != 39 && b != 34 && b != 36)
-
-def kPlainBs : Nat := 1        -- '…\'  : backslash before a quote in a plain literal
-def kIdentBs : Nat := 2        -- "…\"
-def kEBs : Nat := 3            -- E'…\' : backslash before a quote in an escape string
-def kQuoteInLine : Nat := 4    -- quote / dollar inside a -- comment
-def kQuoteInBlock : Nat := 5   -- quote / dollar inside a /* */ comment
 def kDollarInIdent : Nat := 6  -- `$` that continues an identifier but follows `$` or a non-ASCII byte
 def kEInIdent : Nat := 7       -- e'… / E'… whose `e` continues an identifier after a non-ASCII byte or `$`
 def kDollarAfterDigit : Nat := 8  -- dollar-quote opener glued to a number
-def kDollarTagHigh : Nat := 9  -- dollar-quote tag with non-ASCII letters
 def kEAfterDigit : Nat := 10   -- E'…' glued to a number
+def kCrEndsLineM : Nat := 11   -- (mask) `--` comment ended by a carriage return (the masker reads on to `\n`)
 def kLiteralLeft : Nat := 20   -- (strip) a literal is present in the text handed to the stripper
 def kCrEndsLine : Nat := 21    -- (strip) `--` comment ended by a carriage return
 def kNested : Nat := 22        -- (strip) nested block comment
 def kByteAfterBlock : Nat := 23 -- (strip) exactly one byte follows a block comment
-def kLookalike : Nat := 30     -- (round trip) text containing `STR_` or `IDENT_`
+def kLookalike : Nat := 30     -- (round trip) `STR_` / `IDENT_` in the text OUTSIDE literals and quoted identifiers
 
 /-- Mask-agreement check of the token that `lTok inId c t` produces; `prev` = previous byte. -/
 def kTokM (inId : Bool) (prev c : UInt8) (t : Bytes) : Nat :=
@@ -424,21 +401,15 @@ def kTokM (inId : Bool) (prev c : UInt8) (t : Bytes) : Nat :=
     if c = DOLLAR then (if isIdentByte prev then 0 else kDollarInIdent)
     else if isE c && t.head? = some QUOTE then (if isIdentByte prev then 0 else kEInIdent)
     else 0
-  else if c = QUOTE then (if noBsQ QUOTE (lBody QUOTE t).1 then 0 else kPlainBs)
-  else if c = DQUOTE then (if noBsQ DQUOTE (lBody DQUOTE t).1 then 0 else kIdentBs)
-  else if isE c && t.head? = some QUOTE then
-    if isIdentByte prev then kEAfterDigit
-    else if noBsQ QUOTE (lEBody t.tail).1 then 0 else kEBs
+  else if c = QUOTE then 0
+  else if c = DQUOTE then 0
+  else if isE c && t.head? = some QUOTE then (if isIdentByte prev then kEAfterDigit else 0)
   else if c = DOLLAR then
     match tagScan lTagStart lTagCont true t with
-    | some (tag, _) =>
-      if isIdentByte prev then kDollarAfterDigit
-      else if tag.all (fun b => !isHigh b) then 0 else kDollarTagHigh
+    | some _ => if isIdentByte prev then kDollarAfterDigit else 0
     | none => 0
   else if c = DASH ∧ t.head? = some DASH then
-    (if commentClean (spanP (fun b => b != NL && b != CR) (c :: t)).1 then 0 else kQuoteInLine)
-  else if c = SLASH ∧ t.head? = some STAR then
-    (if commentClean (lBlock 1 t.tail).1 then 0 else kQuoteInBlock)
+    (if (spanP (fun b => b != NL && b != CR) (c :: t)).2.head? = some CR then kCrEndsLineM else 0)
   else 0
 
 def kSegsMF : Nat → Bool → UInt8 → Bytes → Nat
@@ -450,7 +421,7 @@ def kSegsMF : Nat → Bool → UInt8 → Bytes → Nat
     let r := lTok inId c t
     kSegsMF f r.2.2 (lastOr c r.1.bytes) r.2.1
 
-/-- 0 iff `s` is in the class on which masker spans = SqlLex literal spans. -/
+/-- 0 iff `s` is in the class on which the masker's segmentation = SqlLex's. -/
 def kClassM (s : Bytes) : Nat := kSegsMF s.length false 0 s
 
 /-- Strip-agreement check of one token of SqlLex. -/
@@ -485,7 +456,17 @@ def hasSub (pat : Bytes) : Bytes → Bool
 def mkSTR : Bytes := [83, 84, 82, 95]             -- "STR_"
 def mkIDENT : Bytes := [73, 68, 69, 78, 84, 95]   -- "IDENT_"
 
-/-- 0 iff `s` contains neither `STR_` nor `IDENT_` (no placeholder look-alike fragment). -/
-def kClassP (s : Bytes) : Nat := if hasSub mkSTR s || hasSub mkIDENT s then kLookalike else 0
+def runClean (run : Bytes) : Bool := !hasSub mkSTR run && !hasSub mkIDENT run
+
+/-- every maximal stretch of text BETWEEN masked tokens (raw bytes and comments, which are copied
+through) is free of `STR_` / `IDENT_`; `cur` = the stretch collected so far. -/
+def runsClean : Bytes → List Seg → Bool
+  | cur, [] => runClean cur
+  | cur, .str _ :: r => runClean cur && runsClean [] r
+  | cur, .ident _ :: r => runClean cur && runsClean [] r
+  | cur, sg :: r => runsClean (cur ++ sg.bytes) r
+
+/-- 0 iff no placeholder look-alike fragment occurs outside the masked tokens of `s`. -/
+def kClassP (s : Bytes) : Nat := if runsClean [] (mSegs s) then 0 else kLookalike
 
 end Arc.C15
